@@ -33,17 +33,19 @@ def baseline(pair):
 def phases(tier, seed):
     from mc import sched
     th = tier == 'thorough'
-    plan = {'small': 2 if th else 1, 'calls': 1 if th else 0}
+    # (pair, cold tables?, preemption bound)
+    plan = [('small', True, 2 if th else 1), ('calls', True, 1 if th else 0), ('small', False, 3 if th else 2),
+            ('calls', False, 2 if th else 1)]
     cases = []
-    for pair, bound in plan.items():
-        base = baseline(pair)
+    for pair, cold, bound in plan:
+        baseline(pair)   # also leaves the tables warm
         for first in (0, 1):
-            cases.append({'pair': pair, 'first': first, 'k1': None, 'bound': bound})
+            cases.append({'pair': pair, 'first': first, 'k1': None, 'bound': bound, 'cold': cold})
             if bound >= 1:
-                n = sched.execute(jobs(pair), first, []).count
+                n = sched.execute(jobs(pair), first, [], cold).count
                 for k1 in range(n):
-                    cases.append({'pair': pair, 'first': first, 'k1': k1, 'bound': bound})
-    return [{'name': 'two-thread-schedules', 'cases': cases, 'runner': 'run_se', 'chunk': 6 if th else 40}]
+                    cases.append({'pair': pair, 'first': first, 'k1': k1, 'bound': bound, 'cold': cold})
+    return [{'name': 'two-thread-schedules', 'cases': cases, 'runner': 'run_se', 'chunk': 4 if th else 6}]
 
 
 def run_se(cases, stats):
@@ -59,11 +61,11 @@ def run_se(cases, stats):
             return [{'i': 0, 'desc': {'clause': 'schedule', 'outcome': 'HARNESS_COLD_STATE_DIFFERS'}, 'expected': 'cold tables as in a fresh '
                      'interpreter', 'observed': diff, 'noconfirm': True}]
     for i, c in enumerate(cases):
-        pair, first, k1, bound = c['pair'], c['first'], c['k1'], c['bound']
+        pair, first, k1, bound, cold = c['pair'], c['first'], c['k1'], c['bound'], c.get('cold', True)
         base = baseline(pair)
 
         def one(switch):
-            s = sched.execute(jobs(pair), first, switch)
+            s = sched.execute(jobs(pair), first, switch, cold)
             stats['x:schedules'] += 1
             stats['transitions'] += 1
             stats['x:scheduling_points_visited'] += s.count
@@ -81,7 +83,7 @@ def run_se(cases, stats):
                         bad = 'TEXT_DIFFERS'
             stats['out:' + (bad or 'same-as-sequential')] += 1
             if bad:
-                vio.append({'i': i, 'desc': {'clause': 'schedule', 'pair': pair, 'preemptions': s.preemptions, 'outcome': bad},
+                vio.append({'i': i, 'desc': {'clause': 'schedule', 'pair': pair, 'cold': cold, 'preemptions': s.preemptions, 'outcome': bad},
                             'expected': 'both texts equal the sequential baselines',
                             'observed': {'first': first, 'switch_at': list(switch), 'preempted_at': [list(x) for x in s.points_where],
                                          'results': [None if r is None else (r[0] if r[0] != 'TEXT' else 'TEXT') for r in s.results]}})
@@ -89,16 +91,18 @@ def run_se(cases, stats):
 
         if k1 is None:
             a = one([])
-            b = sched.execute(jobs(pair), first, [])       # the same schedule twice: identical observations
+            b = sched.execute(jobs(pair), first, [], cold)       # the same schedule twice: identical observations
             if (a.count, a.results) != (b.count, b.results):
                 vio.append({'i': i, 'desc': {'clause': 'schedule', 'pair': pair, 'outcome': 'NONDETERMINISTIC_REPLAY'},
                             'expected': [a.count], 'observed': [b.count], 'noconfirm': True})
-            stats['x:points_per_execution_' + pair] = max(stats['x:points_per_execution_' + pair], a.count)
             continue
         s1 = one([k1])
         if bound >= 2 and s1.preemptions:
             for k2 in range(k1 + 1, s1.count):
-                one([k1, k2])
+                s2 = one([k1, k2])
+                if bound >= 3 and s2.preemptions == 2:
+                    for k3 in range(k2 + 1, s2.count):
+                        one([k1, k2, k3])
     # one violation per descriptor is enough
     uniq = {}
     for v in vio:
